@@ -71,6 +71,7 @@ fn main() {
     "C21" => dispatch!(props::c21::C21),
     "C22" => dispatch!(props::c22::C22),
     "C23" => dispatch!(props::c23::C23),
+    "C24" => dispatch!(props::c24::C24),
     "C26" => dispatch!(props::c26::C26),
     "C28" => dispatch!(props::c28::C28),
     "C30" => dispatch!(props::c30::C30),
